@@ -152,12 +152,12 @@ func uncompressIndices(indices interface{}) ([]int, error) {
 				return nil, fmt.Errorf("uncompressIndices: index array[0] is not a number: %v", index[0])
 			}
 
-			end, ok := index[1].(float64)
+			count, ok := index[1].(float64)
 			if !ok {
 				return nil, fmt.Errorf("uncompressIndices: index array[1] is not a number: %v", index[1])
 			}
 
-			for i := start; i <= end; i++ {
+			for i := start; i < start+count; i++ {
 				uncompressedIndices = append(uncompressedIndices, int(i))
 			}
 		case float64:
